@@ -3,7 +3,7 @@ CONSTANT S = 3
 CONSTANT P = 2
 CONSTANT Depth = 9
 CONSTANT NClasses = 3
-CONSTANT OpSet = {"new","clone","copyctor","copyassign","movector","moveassign","stackassign","stack","setinnerptr","setinnerref","release","delete","mutate","pwrap","pown","pcopy","pmove","prelease","pdrop"}
+CONSTANT OpSet = {"new","clone","copyctor", "cloneinner","copyassign","movector","moveassign","stackassign","stack","setinnerptr","setinnerref","release","delete","mutate","pwrap","pown","pcopy","pmove","prelease","pdrop"}
 INVARIANT Inv
 CONSTRAINT Emit
 CHECK_DEADLOCK FALSE
